@@ -37,6 +37,10 @@ type config struct {
 	// it must receive nothing and the others exactly one Write. 0: no such writer
 	Removed     int
 	RemovedKind int
+	// ClosedFirst: the writer list the record is bound for was closed through the public API before the call
+	// (1 GetWriter().Close(), 2 GetWriterBy(severity).Close()). The statement does not say whether a closed list
+	// still delivers; the call must return normally all the same, and nobody may get the record twice or in part
+	ClosedFirst int
 }
 
 var flagChoices = []slog.Flags{slog.Lcaller, slog.LattrsR, slog.Ldate, slog.Ltime, slog.Lmicroseconds, slog.Lprivacypath,
@@ -59,9 +63,13 @@ func genConfig() *rapid.Generator[config] {
 		c.NLevel = rapid.SampledFrom([]int{0, 0, 0, 1, 2}).Draw(t, "nlevel")
 		c.AddOnly = rapid.IntRange(0, 3).Draw(t, "addOnly") == 0
 		c.ErrAddedFirst = rapid.Bool().Draw(t, "errAddedFirst")
-		c.FlagsHow = rapid.SampledFrom([]int{0, 0, 1, 2, 3}).Draw(t, "flagsHow")
+		c.FlagsHow = rapid.SampledFrom([]int{0, 0, 1, 2, 3, 4}).Draw(t, "flagsHow")
 		c.Removed = rapid.SampledFrom([]int{0, 0, 0, 1, 2, 3}).Draw(t, "addedThenRemoved")
 		c.RemovedKind = rapid.IntRange(0, 3).Draw(t, "removedKind")
+		c.ClosedFirst = rapid.SampledFrom([]int{0, 0, 0, 0, 0, 1, 2}).Draw(t, "closedFirst")
+		if c.AddOnly {
+			c.ClosedFirst = 0 // those lists hold the standard devices: closing them is for good (and makes their writes fail: C13)
+		}
 		return c
 	})
 }
@@ -183,6 +191,12 @@ func run(t vlib.TB, test string, c config, k call) {
 		lg.RemoveLevelWriter(k.R, extra)
 	}
 	lg.SetLevel(c.L)
+	switch c.ClosedFirst {
+	case 1:
+		_ = lg.GetWriter().Close()
+	case 2:
+		_ = lg.GetWriterBy(k.R).Close()
+	}
 	debug := c.L == slog.DebugLevel // SetLevel(Debug) switches debug mode on (documented side effect)
 	if k.EP.Pkg {
 		slog.SetDefault(lg)
@@ -203,8 +217,8 @@ func run(t vlib.TB, test string, c config, k call) {
 		want = nil
 	}
 
-	where := fmt.Sprintf("%s severity=%v logger{level=%v format=%s child=%v attrs=%v flags=%#x addOnly=%v addedThenRemoved=%d(kind %d, writer 100)} msg=%s args=[%s] println=%s",
-		k.EP.Name, k.R, c.L, c.Format, c.Child, c.LoggerAttrs, int64(slog.GetFlags()), c.AddOnly, c.Removed, c.RemovedKind, vlib.Short(k.Msg), describeArgs(k.Args.Args), k.PrintlnMode)
+	where := fmt.Sprintf("%s severity=%v logger{level=%v format=%s child=%v attrs=%v flags=%#x addOnly=%v addedThenRemoved=%d(kind %d, writer 100) writersClosedFirst=%d} msg=%s args=[%s] println=%s",
+		k.EP.Name, k.R, c.L, c.Format, c.Child, c.LoggerAttrs, int64(slog.GetFlags()), c.AddOnly, c.Removed, c.RemovedKind, c.ClosedFirst, vlib.Short(k.Msg), describeArgs(k.Args.Args), k.PrintlnMode)
 
 	func() {
 		defer func() {
@@ -247,6 +261,9 @@ func run(t vlib.TB, test string, c config, k call) {
 	wantSet := map[int]bool{}
 	for _, w := range want {
 		wantSet[w] = true
+		if c.ClosedFirst != 0 && got[w] == 0 {
+			continue // a closed list may or may not deliver (not stated); never twice
+		}
 		if got[w] != 1 {
 			t.Fatalf("C02 %s: selected writer %d received %d Write calls, want exactly 1 (admitted=%v; events %v)", where, w, got[w], admit, log.Snapshot())
 		}
@@ -278,7 +295,7 @@ func run(t vlib.TB, test string, c config, k call) {
 	}
 
 	// classification
-	labels := []string{"format=" + c.Format, "ep=" + k.EP.Kind, fmt.Sprintf("admit=%v", admit), fmt.Sprintf("add-only=%v", c.AddOnly), fmt.Sprintf("added-then-removed=%d", c.Removed)}
+	labels := []string{"format=" + c.Format, "ep=" + k.EP.Kind, fmt.Sprintf("admit=%v", admit), fmt.Sprintf("add-only=%v", c.AddOnly), fmt.Sprintf("added-then-removed=%d", c.Removed), fmt.Sprintf("closed-first=%d", c.ClosedFirst)}
 	for l := range k.Args.Labels {
 		labels = append(labels, "args:"+l)
 	}
